@@ -344,6 +344,39 @@ def _exhaustive(case, ctx, op):
     got = ref.score(n, edges)
     if got < best - 1e-7 * max(1.0, abs(best)):
         ctx.fail("global_maximum", f"{PROP}:exhaustive_not_maximal", {"result": edges, "score": got, "max": best, "kind": kind})
+        return
+    # all_scores(): every DAG on the columns exactly once, each with its score, in ascending order
+    try:
+        listing = list(es.all_scores())
+    except Exception as e:
+        ctx.fail("succeeds", f"{PROP}:raise:all_scores:{type(e).__name__}:{exc_site(e)}", exc_brief(e))
+        return
+    ctx.checked += 1
+    want = {frozenset(d) for d in all_dags(n)}
+    seen = set()
+    prev = -math.inf
+    for sc_, dag in listing:
+        try:
+            d_edges = frozenset((names.lab2idx[a], names.lab2idx[b]) for a, b in dag.edges())
+            d_nodes = sorted(names.lab2idx[x] for x in dag.nodes())
+        except KeyError as e:
+            ctx.fail("nodes", f"{PROP}:all_scores_nodes", repr(e))
+            return
+        if d_nodes != list(range(n)) or d_edges not in want or d_edges in seen:
+            ctx.fail("enumeration", f"{PROP}:all_scores_enumeration", {"dag": sorted(d_edges), "nodes": d_nodes, "duplicate": d_edges in seen})
+            return
+        seen.add(d_edges)
+        rs = ref.score(n, sorted(d_edges))
+        if not close(float(sc_), rs, atol=1e-7, rtol=1e-9):
+            ctx.fail("enumeration", f"{PROP}:all_scores_value", {"dag": sorted(d_edges), "got": float(sc_), "want": rs, "kind": kind})
+            return
+        if float(sc_) < prev - 1e-9 * max(1.0, abs(prev)):
+            ctx.fail("enumeration", f"{PROP}:all_scores_not_sorted", {"prev": prev, "score": float(sc_)})
+            return
+        prev = float(sc_)
+    if seen != want:
+        ctx.fail("enumeration", f"{PROP}:all_scores_enumeration", {"missing": len(want - seen), "n": n})
+    ctx.probe("all_scores_checked")
 
 
 def _tree(case, ctx, op):
